@@ -230,6 +230,17 @@ pub fn items(tier: Tier, id: &str) -> Vec<Item> {
         for c in cfgs.chunks(1) {
             out.push(Item { cfgs: c.to_vec(), f32_too: false });
         }
+        // FFT blocks of several thousand points: filter construction and normalisation carried
+        // out in the sample type
+        let mut cfgs = Vec::new();
+        for (a, b, chunk) in [(44100usize, 48000usize, 4096usize), (48000, 44100, 4096), (44100, 192000, 2048), (48000, 16000, 6000)] {
+            for kind in [Kind::XI, Kind::XO, Kind::XX] {
+                cfgs.push(Cfg::fft(kind, a, b, chunk, 1));
+            }
+        }
+        for c in cfgs.chunks(1) {
+            out.push(Item { cfgs: c.to_vec(), f32_too: false });
+        }
     }
     if id != "C06" {
         for g in fft_groups(tier) {
